@@ -692,7 +692,88 @@ def rule_g(ctx, out):
         raise AnalysisError(f"only {total} assignments compared")
 
 
+SC = "smt_encoding.complete_encoding.synthesis_stack_constraints"
+
+
+def rule_h(ctx, out):
+    """The per-instruction stack constraints are the stack machine's transition relation.  Every encoder of
+    synthesis_stack_constraints (both representations of "slot unused": the u flags and the `empty` term) is interpreted for one
+    position on a small stack; for *every* well-formed state before and *every* state after, the constraint (with t_j = the
+    instruction) holds exactly when the instruction is applicable and the state after is the machine's successor.  Exhaustive on the
+    instance (bs slots, a few values), bounded in size."""
+    from ..core import encrules as er
+    from ..core.minieval import Unsupported, Raised
+    mi = er.make_interp(ctx)
+    mi.obj_types = mi.obj_types + (er.SFStack,)
+    sf = er.SFStack()
+    thorough = ctx.tier == "thorough"
+    configs = [(3, ["A", "B"])] + ([(4, ["A", "B"]), (3, ["A", "B", "C"])] if thorough else [])
+    cases = [("dupk_encoding", (1,), "dup", {"k": 1}), ("dupk_encoding", (2,), "dup", {"k": 2}), ("swapk_encoding", (1,), "swap", {"k": 1}),
+             ("swapk_encoding", (2,), "swap", {"k": 2}), ("pop_encoding", (), "pop", {}), ("nop_encoding", (), "nop", {}),
+             ("non_comm_function_encoding", (["A", "B"], "B"), "fn", {"o": ["A", "B"], "r": "B"}), ("non_comm_function_encoding", (["A"], "B"), "fn", {"o": ["A"], "r": "B"}),
+             ("non_comm_function_encoding", ([], "B"), "fn", {"o": [], "r": "B"}), ("non_comm_function_encoding", (["B", "A", "A"], "A"), "fn", {"o": ["B", "A", "A"], "r": "A"}),
+             ("comm_function_encoding", ("A", "B", "A"), "comm", {"o0": "A", "o1": "B", "r": "A"}), ("comm_function_encoding", ("A", "A", "B"), "comm", {"o0": "A", "o1": "A", "r": "B"}),
+             ("store_stack_function_encoding", ("A", "B"), "store", {"o0": "A", "o1": "B"}), ("pop_uninterpreted_encoding", ("A",), "popu", {"o0": "A"})]
+    total = 0
+    for bs, dom in configs:
+        extra = [("dupk_encoding", (3,), "dup", {"k": 3}), ("swapk_encoding", (3,), "swap", {"k": 3})] if bs >= 4 else []
+        for name, args, kind, params in cases + extra:
+            for ev in (False, True):
+                fname = name + ("_empty" if ev else "")
+                f = ctx.p.functions.get(f"{SC}.{fname}")
+                if f is None:
+                    raise AnalysisError(f"{SC}.{fname} not found")
+                try:
+                    h = mi.call(f, 0, "theta", sf, bs, *args)
+                except Raised as e:
+                    out.bad(f"stack-constraint:{fname}:raises", f"{fname} raises {e.what} for bs={bs}, arguments {args}", where(f))
+                    continue
+                except Unsupported as e:
+                    raise AnalysisError(f"{fname}: cannot evaluate abstractly: {e}")
+                prob, text, n = er.check_transition(h, kind, params, bs, dom, ev)
+                total += n
+                if prob is None:
+                    out.ok({"encoder": fname, "arguments": repr(args), "slots": bs, "state_pairs": n})
+                else:
+                    out.bad(f"stack-constraint:{fname}:{prob}", f"{fname}{args} on {bs} slots: {text}", where(f))
+        # basic push: the pushed value a_j is any word
+        for ev in (False, True):
+            fname = "push_basic_encoding" + ("_empty" if ev else "")
+            f = ctx.p.functions.get(f"{SC}.{fname}")
+            if f is None:
+                raise AnalysisError(f"{SC}.{fname} not found")
+            idom = [1, 2]
+            h = mi.call(f, 0, "theta", sf, bs)
+            for a_val, ok_val in ((1, True), (2, True), (0, True), (2 ** 256 - 1, True), (-1, False), (2 ** 256, False)):
+                prob, text, n = er.check_transition(h, "push" if ok_val else "never", {"v": a_val}, bs, idom + ([a_val] if a_val not in idom and ok_val else []), ev, {"a_0": a_val}) \
+                    if ok_val else _never(er, h, bs, idom, ev, a_val)
+                total += n
+                if prob is None:
+                    out.ok({"encoder": fname, "pushed": a_val if abs(a_val) < 10 else hex(a_val), "slots": bs})
+                else:
+                    out.bad(f"stack-constraint:{fname}:{prob}", f"{fname} on {bs} slots with a_j = {a_val}: {text}", where(f))
+    out.samples.append({"state_pairs_compared": total})
+    if total < 30000:
+        raise AnalysisError(f"only {total} state pairs compared")
+
+
+def _never(er, h, bs, dom, ev, a_val):
+    """a pushed value outside [0, 2^256) must admit no successor at all"""
+    n = 0
+    posts = list(er.states(bs, dom, ev))
+    for pre, wf, stack in er.states(bs, dom, ev):
+        if not wf:
+            continue
+        base = dict(er.as_assignment(pre, 0, bs), t_0="theta", a_0=a_val)
+        for post, pwf, pstack in posts:
+            n += 1
+            if er.value(h, dict(base, **er.as_assignment(post, 1, bs))):
+                return "admits-value-outside-the-word-range", f"a pushed value of {a_val} is admitted", n
+    return None, None, n
+
+
 RULES = [
+    ("C06.h", "stack constraints = transition relation of the stack machine (small instance)", 30, rule_h),
     ("C06.g", "order and multiplicity constraints mean what they are documented to mean", 14, rule_g),
     ("C06.f", "integer codes of stack terms are dense; `empty` gets a fresh code", 4, rule_f),
     ("C06.e", "position families cover every admissible position", 15, rule_e),
